@@ -207,8 +207,9 @@ class RawMeshData:
     def _generate_cell_corners(self):
         nce = len(self.cell_corners._elem)
         nca = len(self.cell_corners._adj)
-        if nce==0 or nca==0:
-            # corners were not or badly generated
+        nc = sum([len(C) for C in self.cells])
+        if nce==0 or nca==0 or nce!=nc or nca!=nc:
+            # corners were not or badly generated (for instance cells were appended to an already built mesh)
             if nca==0 and nce>0:
                 # build only adjacency
                 self.cell_corners._adj = []
